@@ -30,7 +30,7 @@ Run(proto, method, v6, mn, mx, q, e) ==
      min_ttl |-> mn, max_ttl |-> mx, delay_ms |-> 20, timeout_ms |-> 300, queries |-> q, e2e |-> e,
      listen_port |-> IF proto = "tcp" /\ method \in {"sack", "prefer_sack"} THEN 443 ELSE 0,
      reverse_dns |-> FALSE, public_ip |-> FALSE, pub_mode |-> "ok", skip_private |-> FALSE, paris |-> FALSE, via |-> "lib", query |-> "",
-     dns |-> [x \in {} |-> ""]]
+     dns |-> [x \in {} |-> ""], http_method |-> "", http_path |-> ""]
 
 Protos == { <<"icmp", "", FALSE>>, <<"icmp", "", TRUE>>, <<"udp", "", FALSE>>, <<"udp", "", TRUE>>,
             <<"tcp", "syn", FALSE>>, <<"tcp", "sack", FALSE>>, <<"tcp", "prefer_sack", FALSE>> }
@@ -167,10 +167,29 @@ C17All(u) == { C17Run(pr, via, sk, rd) : pr \in {<<"icmp", "", FALSE>>, <<"udp",
                  via \in {"lib", "http"}, sk \in BOOLEAN, rd \in BOOLEAN }
 
 ---------------------------------------------------------------------------
+(* Server.tla in one place: the HTTP surface (server/server.go). Not one of the listed properties: evaluated as an extra  *)
+(* (formula S01, a failure is reported as spec drift). Status = 405 for a wrong method, 400 for a missing target, 500 for  *)
+(* a request the library rejects, 200 + application/json otherwise; /health answers GET and HEAD.                          *)
+HttpScen(name, method, path, query, status) ==
+    [id |-> "S01/" \o name, label |-> "http/" \o name, kind |-> "run", per_flow |-> TRUE, sack_perm |-> TRUE, isn32 |-> <<4660, 1>>,
+     extra |-> [expect_status |-> status],
+     run |-> [Run("udp", "", FALSE, 1, 3, 1, 0) EXCEPT !.via = "http", !.http_method = method, !.http_path = path, !.query = query, !.timeout_ms = 120],
+     path |-> PathOf([t \in 1..3 |-> IF t = 3 THEN <<[form |-> "du_port", delay_us |-> 3000]>> ELSE <<[form |-> "te", from |-> R4(t), delay_us |-> 1000 * t]>>])]
+Q0 == "target=198.51.100.9&max-ttl=3&timeout=120&traceroute-queries=1&e2e-queries=0"
+S01All(u) ==
+    { HttpScen("get_ok", "GET", "/traceroute", Q0, 200), HttpScen("post", "POST", "/traceroute", Q0, 405), HttpScen("put", "PUT", "/traceroute", Q0, 405),
+      HttpScen("head", "HEAD", "/traceroute", Q0, 405), HttpScen("no_target", "GET", "/traceroute", "max-ttl=3", 400),
+      HttpScen("empty_target", "GET", "/traceroute", "target=&max-ttl=3", 400), HttpScen("bad_proto", "GET", "/traceroute", Q0 \o "&protocol=sctp", 500),
+      HttpScen("bad_ttl", "GET", "/traceroute", "target=198.51.100.9&max-ttl=300&traceroute-queries=1&e2e-queries=0", 500),
+      HttpScen("junk_numbers", "GET", "/traceroute", "target=198.51.100.9&max-ttl=abc&timeout=xyz&port=q&traceroute-queries=1&e2e-queries=0&ipv6=maybe", 200),
+      HttpScen("health_get", "GET", "/health", "", 200), HttpScen("health_head", "HEAD", "/health", "", 200), HttpScen("health_post", "POST", "/health", "", 405) }
+
+---------------------------------------------------------------------------
 Cases == CASE Gen = "C15" -> C15All(0)
            [] Gen = "C11" -> C11All(0)
            [] Gen = "C17" -> C17All(0)
            [] Gen = "C19" -> C19All(0)
+           [] Gen = "S01" -> S01All(0)
            [] Gen = "C20" -> C20All(0)
            [] OTHER -> {}
 
